@@ -678,4 +678,445 @@ theorem roundtrip (o : Opts) (g : Nat) (hwf : WF o) (hg : GraphemeOk o g) :
         rw [loop_step _ _ _ _ _ _ _ _ _ _ (step_align _ g ac _ .alignment _ hac (Or.inl rfl))]
         rw [htl .minWidth _ _ (by omega) (Or.inr rfl) rfl rfl rfl, hao]
 
+
+/-! ## format options: everything `parse` returns is well-formed -/
+
+def bounds (o : Opts) : Bool :=
+  (match o.minWidth with | some w => decide (w ≤ u32Max) | none => true)
+  && (match o.precision with | some p => decide (p ≤ u32Max) | none => true)
+
+def wfFill (o : Opts) : Bool :=
+  match o.fill with
+  | none => true
+  | some [] => false
+  | some [c] =>
+    if o.align != .default then true
+    else if c == 48 then o.minWidth.isSome
+    else plainStart c && o.minWidth.isNone && o.precision.isNone && o.repr.isNone
+  | some (c :: d :: _) =>
+    plainStart c && c != 46 && !isAlignCh d
+      && (o.align != .default || (o.minWidth.isNone && o.precision.isNone && o.repr.isNone))
+
+theorem wf_eq (o : Opts) : wf o = (bounds o && wfFill o) := rfl
+
+/-- what is known about the options at each parse position -/
+def posFacts (s : List Nat) (pos : PPos) (o : Opts) (rest : List Nat) : Prop :=
+  match pos with
+  | .start => o = {} ∧ rest = s
+  | .alignment => o.align = .default ∧ o.minWidth = none ∧ o.precision = none ∧ o.repr = none
+  | .minWidth => o.minWidth = none ∧ o.precision = none ∧ o.repr = none
+      ∧ (o.align = .default → o.fill = none ∨ o.fill = some [48])
+  | .precision => o.minWidth.isSome = true ∧ o.precision = none ∧ o.repr = none
+  | .type => o.precision.isSome = true ∧ o.repr = none
+  | .end => True
+
+/-- The loop invariant of `parse`. The only state that is not yet well-formed is a zero fill that
+still waits for its width (`0` seen, a digit follows). -/
+def J (s : List Nat) (pos : PPos) (o : Opts) (rest : List Nat) : Prop :=
+  bounds o = true ∧ posFacts s pos o rest ∧
+    (wfFill o = true
+      ∨ (pos = .minWidth ∧ o.fill = some [48] ∧ o.align = .default ∧ headIs isDigit rest = true))
+
+theorem consumeDigits_bound (cs : List Nat) (n m : Nat) (r : List Nat)
+    (h : consumeDigits n cs = some (m, r)) (hn : n ≤ u32Max) : m ≤ u32Max := by
+  induction cs generalizing n with
+  | nil => simp [consumeDigits] at h; omega
+  | cons c cs ih =>
+    simp only [consumeDigits] at h
+    split at h
+    · split at h
+      · simp at h
+      · rename_i hle
+        exact ih _ h (by omega)
+    · simp at h; omega
+
+theorem alignOf_ne_default (c : Nat) : alignOf c ≠ .default := by
+  simp only [alignOf]
+  split
+  · simp
+  · split <;> simp
+
+theorem isDigit_sub_le (c : Nat) (h : isDigit c = true) : c - 48 ≤ u32Max := by
+  simp [isDigit] at h
+  simp [u32Max]
+  omega
+
+/-- setting a non-default alignment keeps the fill condition -/
+theorem wfFill_align (o : Opts) (a : Align) (ha : a ≠ .default) (h : wfFill o = true) :
+    wfFill { o with align := a } = true := by
+  obtain ⟨al, w, p, f, r⟩ := o
+  have hb : (a != Align.default) = true := by simp [ha]
+  match f, h with
+  | none, _ => simp [wfFill]
+  | some [], h => simp [wfFill] at h
+  | some [c], _ => simp [wfFill, hb]
+  | some (c :: d :: t), h =>
+    simp only [wfFill, Bool.and_eq_true] at h ⊢
+    exact ⟨h.1, by simp [hb]⟩
+
+/-- with a non-default alignment the fill condition does not look at width/precision/representation -/
+theorem wfFill_congr_aligned (o o' : Opts) (hal : o.align ≠ .default) (ha : o'.align = o.align)
+    (hf : o'.fill = o.fill) (h : wfFill o = true) : wfFill o' = true := by
+  obtain ⟨al, w, p, f, r⟩ := o
+  obtain ⟨al', w', p', f', r'⟩ := o'
+  simp only at ha hf hal
+  subst ha; subst hf
+  have hb : (al' != Align.default) = true := by simp [hal]
+  match f', h with
+  | none, _ => simp [wfFill]
+  | some [], h => simp [wfFill] at h
+  | some [c], _ => simp [wfFill, hb]
+  | some (c :: d :: t), h =>
+    simp only [wfFill, Bool.and_eq_true] at h ⊢
+    exact ⟨h.1, by simp [hb]⟩
+
+
+theorem posIn_sa (pos : PPos) : posIn pos [.start, .alignment] = true ↔ pos = .start ∨ pos = .alignment := by
+  cases pos <;> decide
+theorem posIn_sm (pos : PPos) : posIn pos [.start, .minWidth] = true ↔ pos = .start ∨ pos = .minWidth := by
+  cases pos <;> decide
+theorem posIn_smp (pos : PPos) :
+    posIn pos [.start, .minWidth, .precision] = true ↔ pos = .start ∨ pos = .minWidth ∨ pos = .precision := by
+  cases pos <;> decide
+theorem posIn_smpt (pos : PPos) :
+    posIn pos [.start, .minWidth, .precision, .type] = true
+      ↔ pos = .start ∨ pos = .minWidth ∨ pos = .precision ∨ pos = .type := by
+  cases pos <;> decide
+
+theorem bounds_default : bounds {} = true := by decide
+theorem wfFill_default : wfFill {} = true := by decide
+
+/-- One iteration of `parse` keeps the invariant. -/
+theorem step_J (s : List Nat) (g next : Nat) (rest : List Nat) (pos pos' : PPos) (o o' : Opts)
+    (rest' : List Nat)
+    (h : step s g next rest pos o = .ok (pos', o', rest'))
+    (hJ : J s pos o (next :: rest)) : J s pos' o' rest' := by
+  obtain ⟨hb, hpf, hfill⟩ := hJ
+  simp only [step] at h
+  by_cases c1 : (pos == PPos.start && headIs isAlignCh rest) = true
+  · -- single-character fill followed by an alignment
+    rw [if_pos c1] at h
+    simp only [Bool.and_eq_true, beq_iff_eq] at c1
+    obtain ⟨hp, _⟩ := c1
+    subst hp
+    obtain ⟨ho, _⟩ := hpf
+    subst ho
+    cases rest with
+    | nil => simp at h
+    | cons p r =>
+      simp only [Except.ok.injEq, Prod.mk.injEq] at h
+      obtain ⟨rfl, rfl, rfl⟩ := h
+      have ha := alignOf_ne_default p
+      refine ⟨rfl, ⟨rfl, rfl, rfl, fun h => absurd h ha⟩, Or.inl ?_⟩
+      simp [wfFill, ha]
+  · rw [if_neg c1] at h
+    by_cases c2 : (isAlignCh next && posIn pos [PPos.start, PPos.alignment]) = true
+    · -- alignment
+      rw [if_pos c2] at h
+      simp only [Bool.and_eq_true, posIn_sa] at c2
+      simp only [Except.ok.injEq, Prod.mk.injEq] at h
+      obtain ⟨rfl, rfl, rfl⟩ := h
+      have ha := alignOf_ne_default next
+      rcases c2.2 with hp | hp
+      · subst hp
+        obtain ⟨ho, _⟩ := hpf
+        subst ho
+        exact ⟨rfl, ⟨rfl, rfl, rfl, fun h => absurd h ha⟩, Or.inl (by simp [wfFill])⟩
+      · subst hp
+        obtain ⟨_, hw, hpr, hr⟩ := hpf
+        have hwf : wfFill o = true := by
+          rcases hfill with h | h
+          · exact h
+          · exact absurd h.1 (by decide)
+        refine ⟨hb, ⟨hw, hpr, hr, fun h => absurd h ha⟩, Or.inl (wfFill_align o _ ha hwf)⟩
+    · rw [if_neg c2] at h
+      by_cases c3 : (next == 48 && headIs isDigit rest && posIn pos [PPos.start, PPos.minWidth]) = true
+      · -- zero fill
+        rw [if_pos c3] at h
+        simp only [Bool.and_eq_true, posIn_sm] at c3
+        obtain ⟨⟨_, hdig⟩, hpos⟩ := c3
+        simp only [Except.ok.injEq, Prod.mk.injEq] at h
+        obtain ⟨rfl, rfl, rfl⟩ := h
+        have hnone : o.minWidth = none ∧ o.precision = none ∧ o.repr = none := by
+          rcases hpos with hp | hp
+          · subst hp; obtain ⟨ho, _⟩ := hpf; subst ho; exact ⟨rfl, rfl, rfl⟩
+          · subst hp; exact ⟨hpf.1, hpf.2.1, hpf.2.2.1⟩
+        refine ⟨hb, ⟨hnone.1, hnone.2.1, hnone.2.2, fun _ => Or.inr rfl⟩, ?_⟩
+        by_cases hal : o.align = .default
+        · exact Or.inr ⟨rfl, rfl, hal, hdig⟩
+        · left
+          have : (o.align != Align.default) = true := by simp [hal]
+          simp [wfFill, this]
+      · rw [if_neg c3] at h
+        by_cases c4 : (isDigit next && posIn pos [PPos.start, PPos.minWidth]) = true
+        · -- min width
+          rw [if_pos c4] at h
+          simp only [Bool.and_eq_true, posIn_sm] at c4
+          obtain ⟨hdn, hpos⟩ := c4
+          cases hcd : consumeDigits (next - 48) rest with
+          | none => simp [hcd] at h
+          | some res =>
+            obtain ⟨n, r⟩ := res
+            simp only [hcd, Except.ok.injEq, Prod.mk.injEq] at h
+            obtain ⟨rfl, rfl, rfl⟩ := h
+            have hn : n ≤ u32Max := consumeDigits_bound rest _ n r hcd (isDigit_sub_le next hdn)
+            have hfacts : o.minWidth = none ∧ o.precision = none ∧ o.repr = none
+                ∧ (o.align = .default → o.fill = none ∨ o.fill = some [48]) := by
+              rcases hpos with hp | hp
+              · subst hp; obtain ⟨ho, _⟩ := hpf; subst ho
+                exact ⟨rfl, rfl, rfl, fun _ => Or.inl rfl⟩
+              · subst hp; exact hpf
+            obtain ⟨hw0, hp0, hr0, hdef⟩ := hfacts
+            have hb' : bounds { o with minWidth := some n } = true := by
+              simp [bounds, hp0, hn]
+            refine ⟨hb', ⟨rfl, hp0, hr0⟩, Or.inl ?_⟩
+            by_cases hal : o.align = .default
+            · rcases hdef hal with hf | hf
+              · simp [wfFill, hf]
+              · simp [wfFill, hf, hal]
+            · have hwf : wfFill o = true := by
+                rcases hfill with h | h
+                · exact h
+                · exact absurd h.2.2.1 hal
+              exact wfFill_congr_aligned o _ hal rfl rfl hwf
+        · rw [if_neg c4] at h
+          by_cases c5 : (next == 46 && !rest.isEmpty && posIn pos [PPos.start, PPos.minWidth, PPos.precision]) = true
+          · -- precision
+            rw [if_pos c5] at h
+            simp only [Bool.and_eq_true, posIn_smp, beq_iff_eq] at c5
+            obtain ⟨⟨hn46, _⟩, hpos⟩ := c5
+            subst hn46
+            cases rest with
+            | nil => simp at h
+            | cons d r0 =>
+              simp only at h
+              by_cases hd : isDigit d = true
+              · rw [if_pos hd] at h
+                cases hcd : consumeDigits (d - 48) r0 with
+                | none => simp [hcd] at h
+                | some res =>
+                  obtain ⟨n, r⟩ := res
+                  simp only [hcd, Except.ok.injEq, Prod.mk.injEq] at h
+                  obtain ⟨rfl, rfl, rfl⟩ := h
+                  have hn : n ≤ u32Max := consumeDigits_bound r0 _ n r hcd (isDigit_sub_le d hd)
+                  -- the zero-fill exception cannot be pending: the next character is `.`
+                  have hwf : wfFill o = true := by
+                    rcases hfill with h | h
+                    · exact h
+                    · have := h.2.2.2
+                      simp [headIs, isDigit] at this
+                  have hr0 : o.repr = none := by
+                    rcases hpos with hp | hp | hp
+                    · subst hp; obtain ⟨ho, _⟩ := hpf; subst ho; rfl
+                    · subst hp; exact hpf.2.2.1
+                    · subst hp; exact hpf.2.2
+                  have hb' : bounds { o with precision := some n } = true := by
+                    simp only [bounds, Bool.and_eq_true] at hb ⊢
+                    exact ⟨hb.1, by simp [hn]⟩
+                  refine ⟨hb', ⟨rfl, hr0⟩, Or.inl ?_⟩
+                  by_cases hal : o.align = .default
+                  · -- default alignment: fill is none, or a zero fill that already has its width
+                    obtain ⟨al, w, p, f, rr⟩ := o
+                    simp only at hal hr0
+                    subst hal
+                    rcases hpos with hp | hp | hp
+                    · subst hp; obtain ⟨ho, _⟩ := hpf
+                      simp only [Opts.mk.injEq] at ho
+                      obtain ⟨_, _, _, hf, _⟩ := ho
+                      subst hf
+                      simp [wfFill]
+                    · subst hp
+                      obtain ⟨hw0, _, _, hdef⟩ := hpf
+                      simp only at hw0 hdef
+                      rcases hdef trivial with hf | hf
+                      · subst hf; simp [wfFill]
+                      · subst hf; subst hw0
+                        simp [wfFill] at hwf
+                    · subst hp
+                      obtain ⟨hws, _, _⟩ := hpf
+                      simp only at hws
+                      match f, hwf with
+                      | none, _ => simp [wfFill]
+                      | some [], hwf => simp [wfFill] at hwf
+                      | some [c], hwf =>
+                        by_cases hc : c = 48
+                        · subst hc; simp [wfFill, hws]
+                        · have hc' : (c == 48) = false := by simp [hc]
+                          simp [wfFill, hc'] at hwf
+                          obtain ⟨⟨⟨_, hwn⟩, _⟩, _⟩ := hwf
+                          simp [hwn] at hws
+                      | some (c :: d' :: t), hwf =>
+                        simp [wfFill] at hwf
+                        obtain ⟨_, ⟨hwn, _⟩, _⟩ := hwf
+                        simp [hwn] at hws
+                  · exact wfFill_congr_aligned o _ hal rfl rfl hwf
+              · rw [if_neg hd] at h
+                simp at h
+          · rw [if_neg c5] at h
+            by_cases c6 : ((reprOf next).isSome && posIn pos [PPos.start, PPos.minWidth, PPos.precision, PPos.type]) = true
+            · -- representation
+              rw [if_pos c6] at h
+              simp only [Bool.and_eq_true, posIn_smpt] at c6
+              obtain ⟨_, hpos⟩ := c6
+              simp only [Except.ok.injEq, Prod.mk.injEq] at h
+              obtain ⟨rfl, rfl, rfl⟩ := h
+              have hb' : bounds { o with repr := reprOf next } = true := hb
+              refine ⟨hb', trivial, Or.inl ?_⟩
+              have hwf : wfFill o = true := by
+                rcases hfill with h | h
+                · exact h
+                · -- pending zero fill: the next character would be a digit, but then the width arm fired
+                  obtain ⟨hp, _, _, hdg⟩ := h
+                  subst hp
+                  have : isDigit next = true := by simpa [headIs] using hdg
+                  simp [this, posIn_sm] at c4
+              by_cases hal : o.align = .default
+              · obtain ⟨al, w, p, f, rr⟩ := o
+                simp only at hal
+                subst hal
+                rcases hpos with hp | hp | hp | hp
+                · subst hp; obtain ⟨ho, _⟩ := hpf
+                  simp only [Opts.mk.injEq] at ho
+                  obtain ⟨_, _, _, hf, _⟩ := ho
+                  subst hf
+                  simp [wfFill]
+                · subst hp
+                  obtain ⟨hw0, _, _, hdef⟩ := hpf
+                  simp only at hw0 hdef
+                  rcases hdef trivial with hf | hf
+                  · subst hf; simp [wfFill]
+                  · subst hf; subst hw0
+                    simp [wfFill] at hwf
+                · subst hp
+                  obtain ⟨hws, _, _⟩ := hpf
+                  simp only at hws
+                  match f, hwf with
+                  | none, _ => simp [wfFill]
+                  | some [], hwf => simp [wfFill] at hwf
+                  | some [c], hwf =>
+                    by_cases hc : c = 48
+                    · subst hc; simp [wfFill, hws]
+                    · have hc' : (c == 48) = false := by simp [hc]
+                      simp [wfFill, hc'] at hwf
+                      obtain ⟨⟨⟨_, hwn⟩, _⟩, _⟩ := hwf
+                      simp [hwn] at hws
+                  | some (c :: d' :: t), hwf =>
+                    simp [wfFill] at hwf
+                    obtain ⟨_, ⟨hwn, _⟩, _⟩ := hwf
+                    simp [hwn] at hws
+                · subst hp
+                  obtain ⟨hps, _⟩ := hpf
+                  simp only at hps
+                  match f, hwf with
+                  | none, _ => simp [wfFill]
+                  | some [], hwf => simp [wfFill] at hwf
+                  | some [c], hwf =>
+                    by_cases hc : c = 48
+                    · subst hc
+                      simp [wfFill] at hwf ⊢
+                      exact hwf
+                    · have hc' : (c == 48) = false := by simp [hc]
+                      simp [wfFill, hc'] at hwf
+                      obtain ⟨⟨⟨_, _⟩, hpn⟩, _⟩ := hwf
+                      simp [hpn] at hps
+                  | some (c :: d' :: t), hwf =>
+                    simp [wfFill] at hwf
+                    obtain ⟨_, ⟨_, hpn⟩, _⟩ := hwf
+                    simp [hpn] at hps
+              · exact wfFill_congr_aligned o _ hal rfl rfl hwf
+            · rw [if_neg c6] at h
+              by_cases c7 : (pos == PPos.start) = true
+              · -- the first grapheme cluster is the fill
+                rw [if_pos c7] at h
+                simp only [beq_iff_eq] at c7
+                subst c7
+                obtain ⟨ho, hs⟩ := hpf
+                subst ho
+                simp only [Except.ok.injEq, Prod.mk.injEq] at h
+                obtain ⟨rfl, rfl, rfl⟩ := h
+                refine ⟨rfl, ⟨rfl, rfl, rfl, rfl⟩, Or.inl ?_⟩
+                -- facts from the arms that did not fire at `Start`
+                have hstart : (PPos.start == PPos.start) = true := by decide
+                have hra : headIs isAlignCh rest = false := by
+                  simpa [hstart] using c1
+                have hna : isAlignCh next = false := by
+                  have : posIn PPos.start [PPos.start, PPos.alignment] = true := by decide
+                  simpa [this] using c2
+                have hnd : isDigit next = false := by
+                  have : posIn PPos.start [PPos.start, PPos.minWidth] = true := by decide
+                  simpa [this] using c4
+                have hnr : (reprOf next).isSome = false := by
+                  have : posIn PPos.start [PPos.start, PPos.minWidth, PPos.precision, PPos.type] = true := by decide
+                  simpa [this] using c6
+                have hdot : (next == 46 && !rest.isEmpty) = false := by
+                  have : posIn PPos.start [PPos.start, PPos.minWidth, PPos.precision] = true := by decide
+                  simpa [this] using c5
+                have hplain : plainStart next = true := by
+                  simp only [plainStart, hna, hnd, Bool.not_false, Bool.true_and]
+                  cases hro : reprOf next with
+                  | none => rfl
+                  | some x => simp [hro] at hnr
+                have h48 : (next == 48) = false := by
+                  simp [isDigit] at hnd
+                  simp
+                  omega
+                obtain ⟨k, hk⟩ : ∃ k, max g 1 = k + 1 := ⟨max g 1 - 1, by omega⟩
+                rw [← hs, hk]
+                simp only [List.take_succ_cons]
+                cases htk : rest.take k with
+                | nil => simp [wfFill, h48, hplain]
+                | cons d' t' =>
+                  cases rest with
+                  | nil => simp at htk
+                  | cons d r0 =>
+                    cases k with
+                    | zero => simp at htk
+                    | succ k' =>
+                      simp only [List.take_succ_cons, List.cons.injEq] at htk
+                      obtain ⟨rfl, _⟩ := htk
+                      have hda : isAlignCh d = false := by simpa [headIs] using hra
+                      have h46 : (next == 46) = false := by simpa using hdot
+                      have h46' : (next != 46) = true := by simp [bne, h46]
+                      simp [wfFill, hplain, h46', hda]
+              · rw [if_neg c7] at h
+                simp at h
+
+theorem loop_J (s : List Nat) (g : Nat) : ∀ (fuel : Nat) (pos : PPos) (o : Opts) (rest : List Nat) (o' : Opts),
+    J s pos o rest → loop s g fuel pos o rest = .ok o' → wf o' = true := by
+  intro fuel
+  induction fuel with
+  | zero =>
+    intro pos o rest o' hJ h
+    cases rest with
+    | nil =>
+      simp [loop] at h
+      subst h
+      obtain ⟨hb, _, hf⟩ := hJ
+      rcases hf with hf | hf
+      · simp [wf_eq, hb, hf]
+      · simp [headIs] at hf
+    | cons c cs => simp [loop] at h
+  | succ fuel ih =>
+    intro pos o rest o' hJ h
+    cases rest with
+    | nil =>
+      simp [loop] at h
+      subst h
+      obtain ⟨hb, _, hf⟩ := hJ
+      rcases hf with hf | hf
+      · simp [wf_eq, hb, hf]
+      · simp [headIs] at hf
+    | cons c cs =>
+      simp only [loop] at h
+      cases hst : step s g c cs pos o with
+      | error e => simp [hst] at h
+      | ok res =>
+        obtain ⟨pos', o1, r'⟩ := res
+        simp only [hst] at h
+        exact ih pos' o1 r' o' (step_J s g c cs pos pos' o o1 r' hst hJ) h
+
+/-- Everything `parse` returns is well-formed. -/
+theorem parse_wf (s : List Nat) (g : Nat) (o : Opts) (h : parse s g = .ok o) : WF o :=
+  loop_J s g s.length .start {} s o ⟨bounds_default, ⟨rfl, rfl⟩, Or.inl wfFill_default⟩ h
+
 end KotoVerif.C11.Lemmas
